@@ -10,11 +10,11 @@ import ast, os, sys, traceback, itertools, z3
 from pyvc import report
 
 PALETTE = ['int', 'bool', 'str', 'float', 'object', 'L0', 'L1', 'L2', 'None', 'Union[int, str]', 'Union[int, str, None]', 'Optional[L0]', 'Union[L2, L1]', 'Literal[1]', 'Literal[True]', "Literal[1, 'a']", "Literal['a']",
-           'Literal[1, 2]', 'Literal[2]', 'Union[Literal[2], str]', 'Optional[Literal[2]]', 'list[Literal[1]]', 'list[Optional[Literal[2]]]', 'Annotated[int, V1]', 'Annotated[str, V1]', 'Annotated[bool, V1]', 'Annotated[int, V1, V2]', 'Annotated[L0, V1]', 'Annotated[L2, V1]', 'tuple[int, str]', 'tuple[bool, str]', 'tuple[int, ...]', 'tuple[bool, ...]',
+           'Literal[1, 2]', 'Literal[2]', 'Union[Literal[2], str]', 'Optional[Literal[2]]', 'list[Literal[1]]', 'list[Optional[Literal[2]]]', 'Annotated[int, V1]', 'Annotated[object, V1]', 'Annotated[T, V2]', 'Annotated[str, V1]', 'Annotated[bool, V1]', 'Annotated[int, V1, V2]', 'Annotated[L0, V1]', 'Annotated[L2, V1]', 'tuple[int, str]', 'tuple[bool, str]', 'tuple[int, ...]', 'tuple[bool, ...]',
            'tuple[int]', 'tuple[()]', 'tuple', 'list[int]', 'list[bool]', 'list', 'Sequence[int]', 'Sequence[bool]', 'Collection[int]', 'Iterable[int]', 'dict[str, int]', 'dict[str, bool]', 'Mapping[str, int]', 'Mapping[str, object]',
            'set[int]', 'frozenset[int]', 'type[L0]', 'type[L2]', 'type', 'Callable[[int], str]', 'Callable[..., object]', 'Callable[[], str]', 'NT', 'TB', 'TBint', 'TBstr', 'T', 'G[int]', 'GL[int]',
            'Callable[[int], int]', 'Callable[[str], int]', 'Callable[[bool], int]', 'Falsy', 'list[Falsy]', 'list[Callable[..., object]]', 'Hashable', 'Sequence', 'Sequence[int]']
-OBJS = ['1', 'True', "'a'", '2.5', 'None', 'L0()', 'L1()', 'L2()', '(1, "a")', '(True, "a")', '(1,)', '()', '(1, 2, 3)', '(True, False)', '[1]', '[True]', "['a']", '[]', "{'a': 1}", "{'a': True}", '{1}', 'frozenset([1])', 'L0', 'L2', 'int',
+OBJS = ['1', '-1', 'True', "'a'", '2.5', 'None', 'L0()', 'L1()', 'L2()', '(1, "a")', '(True, "a")', '(1,)', '()', '(1, 2, 3)', '(True, False)', '[1]', '[True]', "['a']", '[]', "{'a': 1}", "{'a': True}", '{1}', 'frozenset([1])', 'L0', 'L2', 'int',
         'len', '(lambda: 0)', '2', 'G()', 'GL([1])', "GL(['a'])"]
 
 def setup_ns():
